@@ -50,8 +50,8 @@ still unstructured into a plain `dict`. -/
 theorem C03_override_doc_gap_witness :
     specLookup [(.dict, 7)] .orderedDict = some 7 ∧ lookup (closure [(.dict, 7)]) .orderedDict = none
     ∧ specLookup [(.dict, 7)] .defaultDict = some 7 ∧ lookup (closure [(.dict, 7)]) .defaultDict = none
-    ∧ containerFor [(.dict, 7)] .orderedDict = some tDict ∧ containerFor [(.dict, 7)] .defaultDict = some tDict
-    ∧ containerFor [(.dict, 7)] .counter = some 7 := by decide
+    ∧ containerFor [(.dict, 7)] .orderedDict = tDict ∧ containerFor [(.dict, 7)] .defaultDict = tDict
+    ∧ containerFor [(.dict, 7)] .counter = 7 := by decide
 
 /-- … and for every user dict these two keys answer with the user's own entry only. -/
 theorem C03_override_dict_subclasses_explicit_only (m : Map) :
@@ -99,10 +99,7 @@ theorem C03_override_order_irrelevant (u1 u2 : List (CKey × Target)) (hp : u1.P
     simp only [construct, lookup_closure, hv]
   refine ⟨hk, ?_⟩
   intro d
-  unfold containerOf
-  cases consumer d with
-  | none => rfl
-  | some p => simp [hk]
+  simp [containerOf, hk]
 
 example : [(CKey.list, 1), (CKey.sequence, 2), (CKey.absSet, 3)].Perm [(.absSet, 3), (.list, 1), (.sequence, 2)]
     ∧ ([(CKey.list, 1), (CKey.sequence, 2), (CKey.absSet, 3)].map Prod.fst).Nodup := by
@@ -129,19 +126,16 @@ example : copyOf (construct [(.mutSet, 4), (.mutSet, 9)]) = [(.mutSet, 9), (.set
 key its consumer looks up, else into the consumer's default (`list` for sequences incl. homogeneous tuples and deques,
 `tuple` for heterogeneous tuples, `set` for (mutable / abstract) sets, `frozenset`, `dict` for mappings). -/
 theorem C03_override_container (m : Map) (d : DeclTy) :
-    containerFor m d = (consumer d).map (fun p => (specLookupCode m p.1).getD p.2) := by
-  unfold containerFor containerOf
-  cases consumer d with
-  | none => rfl
-  | some p => simp [C03_override_lattice]
+    containerFor m d = (specLookupCode m (consumer d).1).getD (consumer d).2 := by
+  simp [containerFor, containerOf, C03_override_lattice]
 
-theorem C03_override_container_default (d : DeclTy) : containerFor [] d = (consumer d).map Prod.snd := by
+theorem C03_override_container_default (d : DeclTy) : containerFor [] d = (consumer d).2 := by
   cases d <;> decide
 
 -- one key, two consumers: `tuple[int, ...]` and `tuple[int, str]` share the key `tuple` but not the default
-example : containerFor [] .homTuple = some tList ∧ containerFor [] .hetTuple = some tTuple
-    ∧ containerFor [(.sequence, 9)] .homTuple = some 9 ∧ containerFor [(.sequence, 9)] .hetTuple = some 9
-    ∧ containerFor [(.mutSequence, 9)] .homTuple = some tList ∧ containerFor [(.mutSequence, 9)] .deque = some 9 := by
+example : containerFor [] .homTuple = tList ∧ containerFor [] .hetTuple = tTuple
+    ∧ containerFor [(.sequence, 9)] .homTuple = 9 ∧ containerFor [(.sequence, 9)] .hetTuple = 9
+    ∧ containerFor [(.mutSequence, 9)] .homTuple = tList ∧ containerFor [(.mutSequence, 9)] .deque = 9 := by
   decide
 
 /-- Witness that the lattice theorem depends on the source order of the statements: with the `MutableSet → set`
@@ -151,12 +145,16 @@ theorem C03_override_statement_order_witness :
     ∧ lookup (runBlocks [⟨.absSet, [.mutSet, .frozenset]⟩, ⟨.mutSet, [.set]⟩] [(.absSet, 7)]) .set = some 7 := by
   decide
 
-/-- **F45 (negative witness).** A field annotated with the unparametrised `collections.abc.Sequence`, `Set` or
-`MutableSet` reaches none of the consumers, whatever the overrides (even an explicit entry for that very class). -/
-theorem C03_override_bare_abc_witness (m : Map) :
-    containerFor m .bareAbcSequence = none ∧ containerFor m .bareAbcSet = none
-    ∧ containerFor m .bareAbcMutSet = none ∧ containerFor [(.sequence, 7)] .sequence = some 7 := by
-  refine ⟨rfl, rfl, rfl, by decide⟩
+/-- **Bare `collections.abc` spellings** (F45, repaired): a field annotated with the unparametrised
+`collections.abc.Sequence`, `Set` or `MutableSet` gets, for every user dict, the container of the parametrised
+spelling — overrides for that very class and for its supertypes included. -/
+theorem C03_override_bare_abc_same (m : Map) :
+    containerFor m .bareAbcSequence = containerFor m .sequence
+    ∧ containerFor m .bareAbcSet = containerFor m .absSet
+    ∧ containerFor m .bareAbcMutSet = containerFor m .mutSet := ⟨rfl, rfl, rfl⟩
+
+example : containerFor [(.sequence, 7)] .bareAbcSequence = 7 ∧ containerFor [(.absSet, 7)] .bareAbcMutSet = 7
+    ∧ containerFor [] .bareAbcSet = tSet := by decide
 
 /-- **F46 (negative witness).** `dict_factory` is honoured by `BaseConverter` only: the hooks `Converter` generates for
 the dict strategy build plain dicts whatever factory was configured. -/
